@@ -231,6 +231,13 @@ def gen_pairs(tier, seed):
         a = rand_text(rng, rng.randint(0, 14))
         b = mutate(rng, a) if rng.random() < 0.85 else rand_text(rng, rng.randint(0, 14))
         rnd.append((a, b))
+    # highly repetitive texts: these make diff-match-patch emit unmerged runs (e.g. two deletions in a row)
+    for _ in range(nrand // 2):
+        voc = rng.sample(["yes", "no", ".", ",", "a", "bb", "\n"], rng.randint(2, 3))
+        sep = rng.choice([" ", " ", ""])
+        a = sep.join(rng.choice(voc) for _ in range(rng.randint(3, 12)))
+        b = sep.join(rng.choice(voc) for _ in range(rng.randint(2, 10)))
+        rnd.append((a, b))
     return pairs, rnd, len(ex)
 
 
